@@ -143,29 +143,71 @@ def template_group(fname: str, is_support: bool) -> str:
     return 'GType'
 
 
-def scan_all_templates() -> typing.List[typing.Tuple[str, str, str, bool, int, str]]:
-    out = []
+INCLUDE_RE = re.compile(r"^(include|import|from|extends)\s+(.*)$", re.S)
+
+
+def template_refs(text: str, name: str) -> typing.List[str]:
+    """names of the files a template pulls in through include / import / from-import / extends (string literals only;
+    a computed name fails closed)"""
+    refs = []
+    for m in TOKEN_RE.finditer(text):
+        tok = m.group(0)
+        if not tok.startswith('{%'):
+            continue
+        inner = tok[2:-2].strip().lstrip('-+').rstrip('-+').strip()
+        im = INCLUDE_RE.match(inner)
+        if not im:
+            continue
+        rest = im.group(2).strip()
+        lm = re.match(r"^(['\"])([^'\"]+)\1", rest)
+        if not lm:
+            raise Unsupported('%s:%d: %s with a computed name' % (name, _line_of(text, m.start()), im.group(1)))
+        refs.append(lm.group(2))
+    return refs
+
+
+def scan_all_templates() -> typing.Tuple[typing.List[typing.Tuple[str, str, str, bool, int, str]], typing.List[typing.Tuple[str, bool, str]],
+                                         typing.List[typing.Tuple[str, int]]]:
+    """-> (sites, includes, scanned).  Every .j2 under templates/ and support/ is an entry point; every file they name through
+    include/import/from/extends is scanned too, WHATEVER ITS SUFFIX (Jinja renders included files as templates: the HTML pages
+    include namespace_base.js and assets/*), transitively."""
+    sites, includes, scanned = [], [], []
     for lname, lcoq in LANGS:
+        n_files = 0
         for sub, is_support in (('templates', False), ('support', True)):
             d = os.path.join(gen.REPO, SRC, 'lang', lname, sub)
             if not os.path.isdir(d):
                 continue
+            work: typing.List[typing.Tuple[str, typing.FrozenSet[str]]] = []
             for root, _, names in os.walk(d):
                 for n in sorted(names):
-                    if n.endswith('.py') or n.endswith('.pyc'):
-                        continue
-                    p = os.path.join(root, n)
-                    try:
-                        text = open(p, encoding='utf-8').read()
-                    except UnicodeDecodeError:
-                        continue          # binary asset, copied verbatim
-                    if not n.endswith('.j2'):
-                        # copied verbatim (no rendering); still must not look like a template that is rendered elsewhere
-                        continue
-                    rel = os.path.relpath(p, gen.REPO)
-                    for kind, gated, line in scan_template(text, rel):
-                        out.append((lcoq, template_group(n, is_support), kind, gated, line, rel))
-    return out
+                    if n.endswith('.j2'):
+                        work.append((os.path.join(root, n), frozenset([template_group(n, is_support)])))
+            seen: typing.Dict[str, typing.Set[str]] = {}
+            while work:
+                p, groups = work.pop()
+                new_groups = set(groups) - seen.get(p, set())
+                if not new_groups:
+                    continue
+                first = p not in seen
+                seen.setdefault(p, set()).update(new_groups)
+                rel = os.path.relpath(p, gen.REPO)
+                text = open(p, encoding='utf-8').read()          # UnicodeDecodeError -> translator crash -> fail closed
+                if first:
+                    n_files += 1
+                for kind, gated, line in scan_template(text, rel):
+                    for g in sorted(new_groups):
+                        sites.append((lcoq, g, kind, gated, line, rel))
+                for ref in template_refs(text, rel):
+                    q = os.path.normpath(os.path.join(d, ref))
+                    ok = q.startswith(d + os.sep) and os.path.isfile(q)
+                    if first:
+                        includes.append((lcoq, ok, '%s -> %s' % (rel, ref)))
+                    if ok:
+                        # an included file is rendered in the context of its includer: it inherits the includer's groups
+                        work.append((q, frozenset(new_groups | ({template_group(os.path.basename(q), is_support)} if q.endswith('.j2') else set()))))
+        scanned.append((lcoq, n_files))
+    return sites, includes, scanned
 
 
 # ------------------------------------------------------------------------------------------------------------------
@@ -555,11 +597,13 @@ SET_SITE_MAP = {
     ('lang/_common.py', 'generate_include_filepart_list', 'composite_types'): 'SetDepsIncludes',
     ('lang/__init__.py', '_new_language_map', '<set-expr>'): 'SetLangMap',
     ('jinja/loaders.py', 'get_templates', 'files'): 'SetTemplateFiles',
+    ('cli/runners.py', '_dependency_source_files', '<set-expr>'): 'SetListingDeps',
+    ('lang/py/__init__.py', 'filter_newest_minor_version_aliases', '<set-expr>'): 'SetPyAliases',
 }
 CONSUMERS = {'iter', 'list', 'tuple', 'sorted', 'enumerate', 'next', 'reversed', 'zip', 'map', 'filter', 'min', 'max', 'sum'}
 
 
-def set_iterations(trees: typing.Dict[str, ast.Module]) -> typing.List[typing.Tuple[str, bool, str]]:
+def set_iterations(trees: typing.Dict[str, ast.Module]) -> typing.List[typing.Tuple[str, bool, str, bool]]:
     attrs, local = collect_set_names(trees)
     out = []
 
@@ -577,6 +621,7 @@ def set_iterations(trees: typing.Dict[str, ast.Module]) -> typing.List[typing.Tu
             key = (rel, fn.name)
             for node in ast.walk(fn):
                 cands: typing.List[typing.Tuple[ast.AST, bool]] = []
+                total = True
                 if isinstance(node, (ast.For, ast.AsyncFor)):
                     cands.append((node.iter, False))
                 elif isinstance(node, ast.comprehension):
@@ -584,6 +629,10 @@ def set_iterations(trees: typing.Dict[str, ast.Module]) -> typing.List[typing.Tu
                 elif isinstance(node, ast.Call) and isinstance(node.func, ast.Name) and node.func.id in CONSUMERS:
                     for a in node.args:
                         cands.append((a, node.func.id == 'sorted'))
+                    if node.func.id == 'sorted':
+                        # sorted(set) is canonical only without key= (elements that compare equal are equal) or with a total key
+                        keys = [k.value for k in node.keywords if k.arg == 'key']
+                        total = not keys or key_is_total(keys[0], fn) or key_is_identity_attr(keys[0], tree, fn)
                 elif isinstance(node, ast.Call) and isinstance(node.func, ast.Attribute) and node.func.attr in ('join', 'extend', 'update'):
                     for a in node.args:
                         cands.append((a, False))
@@ -598,7 +647,7 @@ def set_iterations(trees: typing.Dict[str, ast.Module]) -> typing.List[typing.Tu
                     if nm == '<set-expr>' and isinstance(expr, ast.Call) and not isinstance(node, (ast.For, ast.comprehension)):
                         continue       # e.g. sorted(set(...)) / list(set(x))[0] handled only when iterated directly
                     site = SET_SITE_MAP.get((rel, fn.name, nm), 'SetUnknown')
-                    out.append((site, srt, '%s %s %s' % (rel, fn.name, nm)))
+                    out.append((site, srt, '%s %s %s' % (rel, fn.name, nm), total if srt else False))
     return out
 
 
@@ -812,12 +861,60 @@ def _has(tree: ast.AST, *names: str) -> bool:
 
 
 # ------------------------------------------------------------------------------------------------------------------
+# -- functions that reach templates --------------------------------------------------------------------------------------
+FILTER_PREFIXES = ('filter_', 'is_', 'uses_')          # LanguageEnvironment.{FILTER,TEST,USES_QUERY}_NAME_PREFIX
+READS_OK_IN_FILTER = {'RdIncludeResolve', 'RdCompareOnly', 'RdDiagnostic'}
+
+
+def template_functions(trees: typing.Dict[str, ast.Module]) -> typing.List[typing.Tuple[str, str, ast.FunctionDef]]:
+    """what nunavut registers by naming convention (CodeGenEnvironment.add_conventional_methods_to_environment and
+    _add_support_from_language_module_to_environment use inspect.getmembers + the prefixes): the routines named filter_*/is_*/
+    uses_* of every language module lang/<x>/__init__.py, and the methods so named of the generator classes in
+    jinja/__init__.py"""
+    t = parse('_templates.py')
+    consts = {ast.unparse(n.targets[0]): n.value.value for n in ast.walk(t)
+              if isinstance(n, ast.Assign) and len(n.targets) == 1 and isinstance(n.value, ast.Constant) and isinstance(n.value.value, str)}
+    got = tuple(consts.get(k) for k in ('FILTER_NAME_PREFIX', 'TEST_NAME_PREFIX', 'USES_QUERY_PREFIX'))
+    if got != FILTER_PREFIXES:
+        raise Unsupported('naming convention of template functions changed: %r' % (got,))
+    out = []
+    for rel, tree in trees.items():
+        parts = rel.split(os.sep)
+        if len(parts) == 3 and parts[0] == 'lang' and parts[2] == '__init__.py':
+            for n in tree.body:
+                if isinstance(n, ast.FunctionDef) and n.name.startswith(FILTER_PREFIXES):
+                    out.append((rel, n.name, n))
+        elif rel == os.path.join('jinja', '__init__.py'):
+            for cls in [c for c in tree.body if isinstance(c, ast.ClassDef)]:
+                for n in cls.body:
+                    if isinstance(n, ast.FunctionDef) and n.name.startswith(FILTER_PREFIXES):
+                        out.append((rel, cls.name + '.' + n.name, n))
+    return out
+
+
+def filter_rows(trees: typing.Dict[str, ast.Module], reads: list, iters: list) -> typing.List[typing.Tuple[bool, str]]:
+    rows = []
+    for rel, name, fn in template_functions(trees):
+        short = name.split('.')[-1]
+        lo, hi = fn.lineno, max(getattr(n, 'lineno', fn.lineno) for n in ast.walk(fn))
+        bad = []
+        for kind, site, desc in reads:
+            m = re.match(r'^(\S+) (\S+) line (\d+)', desc)
+            if m and m.group(1) == rel and lo <= int(m.group(3)) <= hi and site not in READS_OK_IN_FILTER:
+                bad.append('%s/%s' % (kind, site))
+        for site, srt, desc, total in iters:
+            if desc.startswith('%s %s ' % (rel, short)) and not (srt and total) and site == 'SetUnknown':
+                bad.append('set iteration')
+        rows.append((not bad, '%s %s%s' % (rel, name, (' : ' + ', '.join(bad)) if bad else '')))
+    return rows
+
+
 def coq_bool(b: bool) -> str:
     return 'true' if b else 'false'
 
 
 def build() -> typing.Tuple[str, dict]:
-    sites = scan_all_templates()
+    sites, includes, scanned = scan_all_templates()
     trees = {rel: parse(rel) for rel in py_files()}
     reads, clock_ok = ambient_reads(trees)
     facts = {
@@ -837,10 +934,11 @@ def build() -> typing.Tuple[str, dict]:
     nat = [t for s_, t, _ in sorts if s_ == 'SortHtmlNatural']
     facts['sf_natsort_total'] = bool(nat) and all(nat)
     # get_nested_namespaces() is sorted by a total key and nothing else iterates _nested_namespaces
-    nested_iters = [(site, srt) for site, srt, _ in set_iterations(trees) if site in ('SetNestedIter', 'SetNestedBfs')]
+    nested_iters = [(site, srt and tot) for site, srt, _, tot in set_iterations(trees) if site in ('SetNestedIter', 'SetNestedBfs')]
     nested_sort = [t for s_, t, _ in sorts if s_ == 'SortNestedNs']
     facts['sf_nested_sorted'] = bool(nested_iters) and all(srt for _, srt in nested_iters) and bool(nested_sort) and all(nested_sort)
     iters = set_iterations(trees)
+    frows = filter_rows(trees, reads, iters)
     lines = [gen.HEADER % 'src/nunavut/lang/{c,cpp,py,html}/{templates,support}/*.j2 and src/nunavut/**/*.py (tools/translators/gen_c07.py)',
              'From Coq Require Import List NArith.', 'From Verif Require Import Repro.', 'Import ListNotations.', 'Open Scope N_scope.', '']
     lines.append('Definition gen_sites : list site := [')
@@ -850,11 +948,8 @@ def build() -> typing.Tuple[str, dict]:
                     % (lcoq, grp, kind, coq_bool(gated), line, rel))
     lines.append(';\n'.join(body))
     lines.append('].\n')
-    lines.append('Definition gen_src_facts : src_facts := {|')
-    lines.append(';\n'.join('  %s := %s' % (k, coq_bool(v)) for k, v in facts.items()))
-    lines.append('|}.\n')
-    lines.append('Definition gen_set_iters : list (set_site * bool) := [')
-    lines.append(';\n'.join('  (%s, %s)  (* %s *)' % (s, coq_bool(srt), d) for s, srt, d in iters))
+    lines.append('Definition gen_set_iters : list (set_site * bool * bool) := [')
+    lines.append(';\n'.join('  (%s, %s, %s)  (* %s *)' % (s_, coq_bool(srt), coq_bool(tot), d) for s_, srt, d, tot in iters))
     lines.append('].\n')
     lines.append('Definition gen_sorts : list (sort_site * bool) := [')
     lines.append(';\n'.join('  (%s, %s)  (* %s *)' % (a, coq_bool(b), d) for a, b, d in sorts))
@@ -863,10 +958,24 @@ def build() -> typing.Tuple[str, dict]:
     lines.append(';\n'.join('  %s  (* %s *)' % (a, d) for a, d in psorts))
     lines.append('].\n')
     lines.append('Definition gen_ambient_reads : list (read_kind * read_site) := [')
-    lines.append(';\n'.join('  (%s, %s)  (* %s *)' % (k, s, d) for k, s, d in reads))
-    lines.append('].')
+    lines.append(';\n'.join('  (%s, %s)  (* %s *)' % (k, s_, d) for k, s_, d in reads))
+    lines.append('].\n')
+    lines.append('Definition gen_filters : list (N * bool) := [')
+    lines.append(';\n'.join('  (%d, %s)  (* %s *)' % (i, coq_bool(ok), d) for i, (ok, d) in enumerate(frows)))
+    lines.append('].\n')
+    lines.append('Definition gen_includes : list (lang * bool) := [')
+    lines.append(';\n'.join('  (%s, %s)  (* %s *)' % (l, coq_bool(ok), d) for l, ok, d in includes))
+    lines.append('].\n')
+    lines.append('Definition gen_scanned : list (lang * N) := [%s].\n' % '; '.join('(%s, %d)' % (l, n) for l, n in scanned))
+    lines.append('Definition gen_tables : aux_tables := {| t_set_iters := gen_set_iters; t_reads := gen_ambient_reads; '
+                 't_path_sorts := gen_path_sorts; t_sorts := gen_sorts; t_filters := gen_filters; t_includes := gen_includes; '
+                 't_scanned := gen_scanned |}.\n')
+    lines.append('Definition gen_src_facts : src_facts := {|')
+    lines.append(';\n'.join(['  %s := %s' % (k, coq_bool(v)) for k, v in facts.items()] + ['  sf_tables := gen_tables']))
+    lines.append('|}.')
     info = {'sites': [dict(lang=a, group=b, kind=c, gated=d, line=e, file=f) for a, b, c, d, e, f in sites], 'facts': facts,
-            'set_iters': [dict(site=a, sorted=b, where=c) for a, b, c in iters],
+            'set_iters': [dict(site=a, sorted=b, where=c, total=d) for a, b, c, d in iters],
+            'filters': [dict(ok=a, where=b) for a, b in frows], 'includes': [dict(lang=a, ok=b, where=c) for a, b, c in includes],
             'reads': [dict(kind=a, site=b, where=c) for a, b, c in reads],
             'sorts': [dict(site=a, total=b, where=c) for a, b, c in sorts]}
     return '\n'.join(lines) + '\n', info
@@ -880,8 +989,8 @@ def gen_repro() -> typing.Tuple[bool, str]:
         return False, 'gen_c07 failed closed: %s' % ex
     gen.write_if_changed(OUT, text)
     n_ungated = sum(1 for s in info['sites'] if not s['gated'] and s['kind'] != 'KPlatform')
-    return True, 'ok (%d template use sites, %d ungated; %d set iterations; %d ambient reads; facts %s)' % (
-        len(info['sites']), n_ungated, len(info['set_iters']), len(info['reads']),
+    return True, 'ok (%d template use sites, %d ungated; %d included files; %d template functions; %d set iterations; %d ambient reads; facts %s)' % (
+        len(info['sites']), n_ungated, len(info['includes']), len(info['filters']), len(info['set_iters']), len(info['reads']),
         ','.join(k for k, v in info['facts'].items() if not v) or 'all true')
 
 
